@@ -45,8 +45,9 @@ def _readline(proc, deadline):
 
 
 class _Worker(threading.Thread):
-    def __init__(self, tasks, results, lock, op, cases, limit, env_extra, pyargs):
+    def __init__(self, tasks, results, lock, op, cases, limit, env_extra, pyargs, fresh=False):
         super().__init__(daemon=True)
+        self.fresh = fresh
         self.tasks, self.results, self.lock = tasks, results, lock
         self.op, self.cases, self.limit = op, cases, limit
         self.env_extra, self.pyargs = env_extra, pyargs
@@ -75,6 +76,9 @@ class _Worker(threading.Thread):
             batch = self._next()
             if batch is None:
                 break
+            if self.fresh and proc is not None:
+                self._kill(proc)
+                proc = None
             if proc is None or proc.poll() is not None:
                 proc = _spawn(self.env_extra, self.pyargs)
             msg = json.dumps({"op": self.op, "idx": batch, "cases": [self.cases[i] for i in batch], "limit": self.limit})
@@ -122,7 +126,7 @@ HANG_CONFIRM_CAP = 48
 
 
 def run_ops(op: str, cases: list, limit: float = 4.0, jobs: int | None = None, env_extra=None, pyargs=None,
-            batch: int = 25, confirm_hangs: bool = True) -> list:
+            batch: int = 25, confirm_hangs: bool = True, fresh: bool = False) -> list:
     """Run impl.op_<op>(case) for every case; returns the results in order."""
     n = len(cases)
     if n == 0:
@@ -131,7 +135,7 @@ def run_ops(op: str, cases: list, limit: float = 4.0, jobs: int | None = None, e
     jobs = max(1, min(jobs or NCPU, (n + batch - 1) // batch))
     tasks = [list(range(s, min(n, s + batch))) for s in range(0, n, batch)][::-1]
     lock = threading.Lock()
-    ws = [_Worker(tasks, results, lock, op, cases, limit, env_extra, pyargs) for _ in range(jobs)]
+    ws = [_Worker(tasks, results, lock, op, cases, limit, env_extra, pyargs, fresh) for _ in range(jobs)]
     for w in ws:
         w.start()
     for w in ws:
